@@ -31,10 +31,12 @@ def nested_reg_measurements(stmts, inside=False, out=None):
 
 def reference_run(prog, script, step_bound=4000, templates=None):
     ref = hl.DirectEval(script, step_bound=step_bound)
-    ref.templates = dict(templates or {})
+    ref.templates = dict(templates or {}) if not isinstance(templates, list) else {}
     snaps = []
     try:
-        for seg in hl.segments(prog):
+        for si, seg in enumerate(hl.segments(prog)):
+            if isinstance(templates, list):
+                ref.templates = dict(templates[si])      # template values may differ from one flush segment to the next
             ref.run_segment(seg)
             live = [q for q, alive in ref.qubits.items() if alive]
             snaps.append({"arrays": copy.deepcopy(ref.arrays), "regs": dict(ref.regs), "trace_len": len(ref.trace),
@@ -72,7 +74,8 @@ def run_differential(prog, script, fail: Callable[[str, Optional[str]], None], c
     pipe = Pipe(script=script, max_qubits=5, **(pipe_kw or {}))
     drv = SdkDriver(pipe.conn)
     drv.on_top = on_top
-    drv.tmpl_values = dict(templates or {})
+    per_segment = isinstance(templates, list)
+    drv.tmpl_values = dict(templates or {}) if not per_segment else {}
     ex = pipe.ex
     app = pipe.app_id
     first_read = {}
@@ -107,6 +110,9 @@ def run_differential(prog, script, fail: Callable[[str, Optional[str]], None], c
                 drv.segment = si
                 mode = segment_modes[si] if segment_modes else "direct"
                 drv.tmpl_mode = "template" if mode in ("pre", "pre-late") else "concrete"
+                tv = dict(templates[si]) if per_segment else dict(templates or {})
+                if per_segment:
+                    drv.tmpl_values = tv
                 try:
                     drv.top_block(seg)
                 except hc.ControllerFault:
@@ -122,7 +128,7 @@ def run_differential(prog, script, fail: Callable[[str, Optional[str]], None], c
                     if mode == "pre-late" and si < len(segs) - 1:
                         sub = conn.compile()
                         if sub is not None:
-                            sub.instantiate(conn.app_id, dict(templates or {}))
+                            sub.instantiate(conn.app_id, tv)
                             pending_sub = sub
                         count("precompiled_segments", 1)
                         count("late_commits", 1)
@@ -131,7 +137,7 @@ def run_differential(prog, script, fail: Callable[[str, Optional[str]], None], c
                         # compile without sending, fill in the template values, commit
                         sub = conn.compile()
                         if sub is not None:
-                            sub.instantiate(conn.app_id, dict(templates or {}))
+                            sub.instantiate(conn.app_id, tv)
                             conn.commit_subroutine(sub)
                         count("precompiled_segments", 1)
                     else:
